@@ -43,6 +43,12 @@ CLAIMS = {
         'note': 'Trusts the PERMITTED table and the recognition of the bitmask/private macros (an unrecognised loop makes the check exit 2).',
         'technique': 'static who-may-call table + path-sensitive fact tracking over the reporting loop and the return-value switch (clang CFG facts)',
     },
+    'C20': {
+        'text': 'Decides that in each of the 4 rules-level and 4 scanner-level define functions the value store (and any free/type change) is reachable only through the edge on which the stored type compared equal to that API\'s type, that the mismatch exit returns ERROR_INVALID_EXTERNAL_VARIABLE_TYPE and the not-found exit ERROR_INVALID_ARGUMENT, that the compiler-level helper allocates nothing before its duplicate check; that nothing reachable from yr_scanner_define_* writes a shared rule-data record (effect analysis); that yr_scanner_create snapshots every external by value; and that each front end sets the type constant and union member of its API type. Necessary clauses of C20; the three-level precedence as a history property is not decided.',
+        'design_ref': 'DESIGN.md section 4, C20 (R20.1-R20.4)',
+        'note': 'Trusts the three tables RULES_LEVEL/SCANNER_LEVEL/COMPILER_LEVEL (API function -> type constants -> union member) in yrsa/rules/C20.py and type-based effect analysis.',
+        'technique': 'static must-pass (type check dominates store) path analysis + effect analysis + sibling table over clang CFG facts',
+    },
     'C12': {
         'text': 'Decides, for every constant-folding grammar action, that the folder applies the same C operator and the same operand-value guards as the VM handler of the opcode the action emits; that no compiler-layer code reads a run-time object value; that externals are looked up in the scanner-owned table; and that shortcut flags are cleared on every path that uses a string otherwise. These are necessary structural clauses of C12, decided on all sites; verdict equality itself is not decided.',
         'design_ref': 'DESIGN.md section 4, C12 (R12.1-R12.6)',
